@@ -98,6 +98,40 @@ class T2Case(Case):
     def interp(self, ctx):
         return Interp(ctx, summaries=summaries(), unroll=UNROLL)
 
+    STANDIN_BOUND = ("inputs of every length 0..48 and 64, 300, 700 bytes x 3 byte patterns (small values, random, 0xff-heavy) x start "
+                     "offsets {0, 3 or 16}, seeded by the case name")
+
+    def standin(self):
+        """Bounded native check of the same clauses (this case's native replay used as the oracle), run only when the
+        symbolic run of this case was left undecided."""
+        import random
+        import zlib
+
+        if type(self).native is Case.native:
+            return None
+        rnd = random.Random(zlib.crc32(self.name.encode()))
+        fails = []
+        n = 0
+        off = 16 if self.prog.align else 3
+        for ln in list(range(0, 49)) + [64, 300, 700]:
+            for pat in range(3):
+                if pat == 0:
+                    body = bytes(rnd.choice((0, 1, 2, 3)) for _ in range(ln))
+                elif pat == 1:
+                    body = bytes(rnd.randrange(256) for _ in range(ln))
+                else:
+                    body = bytes(rnd.choice((0xFF, 0xFF, 0x80, 0x7F, 2)) for _ in range(ln))
+                for p in (0, off):
+                    inputs = {"D": (bytes(rnd.randrange(256) for _ in range(p)) + body).hex(), "p": p}
+                    n += 1
+                    try:
+                        r = self.native(inputs)
+                    except Exception as e:  # noqa: BLE001
+                        r = {"reproduced": None, "observed": f"oracle crashed: {type(e).__name__}: {e}"}
+                    if r and r.get("reproduced") and len(fails) < 3:
+                        fails.append({"id": f"len{ln}-pat{pat}-p{p}", "inputs": inputs, "observed": r.get("observed")})
+        return {"name": f"standin:{self.name}", "bound": self.STANDIN_BOUND, "evaluations": n, "distinct": n, "failures": fails}
+
     def new_input(self, ctx, aligned_start=True):
         """Symbolic input buffer D (function view D_at, length L) and start position p."""
         D = SBytes.fresh("D")
